@@ -26,6 +26,12 @@ struct Rule {
   ignores: Option<Vec<String>>,
 }
 
+/// a languageGlobs pattern (`*.ext` or a bare file name) is matched against the file NAME
+fn lg_hit(g: &str, path: &str) -> bool {
+  let base = path.rsplit('/').next().unwrap();
+  if let Some(ext) = g.strip_prefix("*.") { base.ends_with(&format!(".{ext}")) } else { base == g }
+}
+
 pub fn run(o: &Opts) {
   let mut out = Out::new(&o.out);
   let mut rng = Rng::new(o.seed ^ 0xc15);
@@ -78,8 +84,8 @@ pub fn run(o: &Opts) {
         builtin_lang.insert(f.clone(), *lang);
         let base = f.rsplit('/').next().unwrap();
         for (li, g) in &lang_globs {
-          let hit = if let Some(ext) = g.strip_prefix("*.") { base.ends_with(&format!(".{ext}")) } else { base == *g };
-          if hit {
+          let _ = base;
+          if lg_hit(g, f) {
             if *lang != Some(*li) {
               out.count("language-globs:file-reassigned");
             }
@@ -215,7 +221,9 @@ pub fn run(o: &Opts) {
       let wire_args = vl![optids(&flags[0]), optids(&flags[1]), optids(&flags[2]), optids(&flags[3]), optids(&flags[4]), optids(&filt_ids)];
       let wire_rules = Val::L(rules.iter().map(|rl| vl![Val::str_bytes(&rl.id), Val::n(rl.lang), Val::n(rl.sev),
         Val::opt(rl.files.as_ref().map(|g| Val::L(g.iter().map(gid).collect()))), Val::opt(rl.ignores.as_ref().map(|g| Val::L(g.iter().map(gid).collect())))]).collect());
-      let wire_files = Val::L(files.iter().map(|(f, l)| vl![Val::opt(builtin_lang.get(f).copied().unwrap_or(*l).map(Val::n)), Val::L(all_globs.iter().enumerate().filter(|(_, g)| gmatch(&vec![(*g).clone()], f)).map(|(i, _)| Val::n(i)).collect()), Val::opt(glob_lang.get(f).map(|l| Val::n(*l)))]).collect());
+      let wire_files = Val::L(files.iter().map(|(f, l)| vl![Val::opt(builtin_lang.get(f).copied().unwrap_or(*l).map(Val::n)), Val::L(all_globs.iter().enumerate().filter(|(_, g)| gmatch(&vec![(*g).clone()], f)).map(|(i, _)| Val::n(i)).chain(lang_globs.iter().enumerate().filter(|(_, g)| lg_hit(g.1, f)).map(|(i, _)| Val::n(1000 + i))).collect())]).collect());
+      let wire_regs = Val::L(LANGS.iter().enumerate().filter(|(li, _)| lang_globs.iter().any(|g| g.0 == *li)).map(|(li, (name, _))| vl![Val::str_bytes(name), Val::n(li),
+        Val::L(lang_globs.iter().enumerate().filter(|(_, g)| g.0 == li).map(|(i, _)| Val::n(1000 + i)).collect())]).collect());
       // observed: per file, the applied rule ids sorted, with the severity the record carries
       let mut per: BTreeMap<String, BTreeSet<(String, usize)>> = BTreeMap::new();
       for x in &recs {
@@ -224,7 +232,7 @@ pub fn run(o: &Opts) {
         per.entry(f).or_default().insert((x["ruleId"].as_str().unwrap_or("").to_string(), sv));
       }
       let exp = Val::L(files.iter().map(|(f, _)| Val::L(per.get(f).map(|s| s.iter().map(|(id, sv)| vl![Val::str_bytes(id), Val::n(*sv)]).collect()).unwrap_or_default())).collect());
-      out.case(47, &vl![wire_args, wire_rules, wire_files], &exp, &format!("rule selection: {}", what.chars().take(400).collect::<String>()));
+      out.case(47, &vl![wire_args, wire_rules, wire_files, wire_regs], &exp, &format!("rule selection: {}", what.chars().take(400).collect::<String>()));
     }
   }
   // ---- files scanned as several documents (an HTML page hosting script and style): the exit status counts the
